@@ -203,7 +203,22 @@ func newVInstWith(cfg vCfg, old any) *vInst {
 			// the real SetUpfInfo over gRPC (about a millisecond): whatever it initialises is initialised; afterwards the
 			// commands go to the fake directly unless the full path was asked for
 			*bessIP = addr
+			in.fb.mu.Lock()
+			n0 := in.fb.ncmd
+			in.fb.mu.Unlock()
 			b.SetUpfInfo(u, conf)
+			// SetUpfInfo clears the four tables over a channel it has just created; should that very first connection
+			// attempt have failed (thousands of short-lived channels per second), the clear commands were not sent: wait for
+			// the channel and let the plug-in clear again - start-up is not what is being varied here
+			if !vWaitChannel(b.conn, true, 60*time.Second) {
+				panic(fmt.Sprintf("VERIF-INFRA: the BESS channel of this instance did not become READY within 60 s (state %v)", b.conn.GetState()))
+			}
+			in.fb.mu.Lock()
+			seen := in.fb.ncmd - n0
+			in.fb.mu.Unlock()
+			if seen < 4 {
+				b.clearState()
+			}
 			if !cfg.FullStartup {
 				b.client = in.fb
 			}
